@@ -761,15 +761,26 @@ func c19(c *Ctx) {
 	}
 	main := build(pkg, "c19r", "RuleService", cat)
 	twin := build("c19.twin", "c19twin", "TwinRuleService", rot)
+	// and a third package reaches every option file (sebuf annotations AND buf/validate) only through an
+	// umbrella file with `import public`
+	rot3 := make([]ruleCase, len(cat))
+	for i := range cat {
+		rot3[i] = cat[(i+3)%len(cat)]
+	}
+	pub := build("c19.pub", "c19pub", "PubRuleService", rot3)
+	umbrella := &spec.File{Path: "c19/common/options.proto", Package: "c19.common", GoImport: "lab/gen/c19common", GoName: "c19common", Public: []string{spec.AnnotationsPath, spec.HeadersPath, spec.ValidatePath}}
+	pub.f.Via, pub.f.ViaAll = umbrella.Path, true
 	type arrangement struct {
 		label string
 		files []*unit
 		judge []*unit
+		extra []*spec.File // files of the request that are not generated
 	}
 	arrs := []arrangement{
-		{"alone", []*unit{main}, []*unit{main}},
-		{"twin-package-first", []*unit{twin, main}, []*unit{main}},
-		{"twin-package-second", []*unit{main, twin}, []*unit{twin}},
+		{"alone", []*unit{main}, []*unit{main}, nil},
+		{"twin-package-first", []*unit{twin, main}, []*unit{main}, nil},
+		{"twin-package-second", []*unit{main, twin}, []*unit{twin}, nil},
+		{"options-via-public-import", []*unit{pub}, []*unit{pub}, []*spec.File{umbrella}},
 	}
 	if c.Thorough() {
 		arrs[1].judge = []*unit{twin, main}
@@ -792,10 +803,13 @@ func c19(c *Ctx) {
 	pend := map[string]pending{}
 	for ai, ar := range arrs {
 		var files []*spec.File
+		var gen []string
+		files = append(files, ar.extra...)
 		for _, u := range ar.files {
 			files = append(files, u.f)
+			gen = append(gen, u.f.Path)
 		}
-		req, err := spec.Request(files, nil, "format=json")
+		req, err := spec.Request(files, gen, "format=json")
 		if err != nil {
 			c.R.Harness(err.Error())
 			return
